@@ -177,7 +177,16 @@ def apply_rules(ck: Checker, rule='C01.APPLY'):
                             why = f'operand values come from `{norm(gen)}`: not every operand of the gate, in operand order, from the one assignment map'
             ck.check(good, rule, m, st, f'{fname}: value of a gate = its operator applied to the values of its operands in order',
                      why, construct=f'{fname} operator application')
-        # inputs default to Undefined before evaluation (also C15.DEFAULT)
+        # the caller's assignment is copied: values computed by one call never leak into the next
+        amap_def = None
+        for node in ast.walk(fn):
+            if isinstance(node, (ast.Assign, ast.AnnAssign)) and norm(node.targets[0] if isinstance(node, ast.Assign) else node.target) == 'assignment_dict':
+                amap_def = node
+        p_assign = fn.args.args[1].arg
+        ck.check(amap_def is not None and norm(amap_def.value) in (f'dict({p_assign})', f'{p_assign}.copy()', f'copy.copy({p_assign})'), rule, m, amap_def or fn,
+                 f'{fname}: gate values are written into a private copy of the assignment',
+                 f'`{norm(amap_def) if amap_def is not None else None}`: the caller\'s dictionary is used as the work map, so values of inner gates from an earlier call are trusted by the next one',
+                 construct=f'{fname} private assignment map')
     for fname in ('Circuit.evaluate', 'Circuit.evaluate_at'):
         fn = m.func(fname)
         p = fn.args.args[1].arg
@@ -317,4 +326,4 @@ def run(ck: Checker):
             ck.ok('C01.SEM-SIB', hmod, hmod.func(hname), f'bench rewrite of {t} denotes {t}', construct=f'{hname} denotes {t}')
     ck.floor('C01.SEM-SIB', 100)
     apply_rules(ck)
-    ck.floor('C01.APPLY', 16)
+    ck.floor('C01.APPLY', 18)
